@@ -428,6 +428,28 @@ def ir_text(m):
     return f.getvalue()
 
 
+def render_ins(ins):
+    """text of a (virtual or allocated) machine instruction; falls back to a structural rendering when ppci's own
+    __str__ fails (riscv registers have no from_num)"""
+    try:
+        return str(ins)
+    except Exception:
+        pass
+    from ppci.arch.registers import Register
+
+    parts = [type(ins).__name__]
+    try:
+        for prop, obj in ins.leaves:
+            v = prop.__get__(obj)
+            if isinstance(v, Register):
+                parts.append(v.name if v._num is not None else ("c%s" % v.color if v.is_colored else v.name))
+            else:
+                parts.append(str(v))
+    except Exception as e:
+        parts.append("<%s>" % type(e).__name__)
+    return " ".join(parts)
+
+
 class Observer:
     """Wraps ppci.codegen.codegen.CodeGenerator to record the instruction list of every function after instruction
     selection (before register allocation) and after register allocation."""
@@ -450,12 +472,12 @@ class Observer:
 
         def select_and_schedule(cg, ir_function, frame):
             r = obs._sel(cg, ir_function, frame)
-            obs.selected.append("%s:\n" % ir_function.name + "\n".join("  " + str(i) for i in frame.instructions))
+            obs.selected.append("%s:\n" % ir_function.name + "\n".join("  " + render_ins(i) for i in frame.instructions))
             return r
 
         def alloc_frame(ra, frame):
             r = obs._alloc(ra, frame)
-            obs.allocated.append("%s:\n" % frame.name + "\n".join("  " + str(i) for i in frame.instructions))
+            obs.allocated.append("%s:\n" % frame.name + "\n".join("  " + render_ins(i) for i in frame.instructions))
             try:
                 obs.callee_saved = max(obs.callee_saved, len([x for x in getattr(ra.arch, "get_callee_saved", lambda f: [])(frame)]))
             except Exception:
